@@ -18,6 +18,7 @@ CONSTANTS
   XParams = {"x1", "x2"}
   XVals <- XValsS
   TplKinds = {"composable", "component", "templates"}
+  BUrls = {"u1", "u2"}
   NumParams = {"p1", "p2"}
   StrParams = {"q1", "q2"}
   SupVals = {0, 2, 300}
